@@ -53,10 +53,10 @@ func init() {
 		ID:          "C10",
 		Explanation: "Decides the stability and failure-atomicity clauses of C10 structurally: (STABLE) every sort that order applies to the value slice is a stable one (sort.Stable, sort.SliceStable, slices.SortStableFunc); an unstable sort is invisible to tests below the library's insertion-sort threshold; (LATCH) every value output of order is dominated by the 'no comparator error' edge tested after sorting, and the comparator sets the error latch on every failing exit (uncomparable pair, callback error, wrong arity, non-boolean), so order outputs nothing when it throws; (SWAP-PAIR) Swap exchanges the keys whenever keys exist, keeping values and keys aligned. That the output is sorted and a permutation, and the option equivalences, are not decided.",
 		NotCovered:  "sortedness and permutation of the output; &key/&less-than/&total equivalences",
-		Rules:       []string{"STABLE", "LATCH", "SWAP-PAIR"},
+		Rules:       []string{"STABLE", "LATCH", "SWAP-PAIR", "SWAP-ONLY-BY-SORT: nothing in pkg/eval calls the value slice's Swap directly (only the stable sort rearranges the values)"},
 		Patterns:    []string{"./pkg/eval"},
-		Run:         runC10,
-		MinCounts:   map[string]int{"STABLE": 1, "LATCH": 4, "SWAP-PAIR": 1},
+		Run:         func(p *core.Program, r *core.Report) { runC10(p, r); runSwapOnlyBySort(p, r) },
+		MinCounts:   map[string]int{"STABLE": 1, "LATCH": 4, "SWAP-PAIR": 1, "SWAP-ONLY-BY-SORT": 1},
 		Trusted:     trustedBase,
 		Controls: []core.Control{
 			{Name: "unstable-sort-in-reverse", Rule: "STABLE", File: "pkg/eval/builtin_fn_stream.go", Old: "\t\tsort.Stable(sort.Reverse(s))", New: "\t\tsort.Sort(sort.Reverse(s))", Fire: true, Quick: true},
@@ -70,9 +70,9 @@ func init() {
 		ID:          "C11",
 		Explanation: "Decides two structural clauses of C11: (NORM) canonical form - no value of static type *big.Int or *big.Rat is turned into an Elvish value (written to the value output, put in a list or map) without passing vals.FromGo / NormalizeBigInt / NormalizeBigRat, and goFn.Call converts every return value of a Go builtin with vals.FromGo; (EXACT-ZERO) every big-number operation that panics on zero (Rat.Inv/Quo/SetFrac, Int.Quo/Rem/Div/Mod/...) reached by script-controlled numbers is dominated by a non-zero test of its divisor, or audited with a reason - so operations without an exact result raise an exception instead of crashing. Numeric correctness of the results is not decided.",
 		NotCovered:  "mathematical correctness of results; that every arithmetic builtin returns through a normalising path is decided only for direct outputs and goFn returns",
-		Rules:       []string{"NORM", "GOFN-NORM", "EXACT-ZERO"},
-		Run:         runC11,
-		MinCounts:   map[string]int{"NORM": 3, "GOFN-NORM": 1, "EXACT-ZERO": 3},
+		Rules:       []string{"NORM", "GOFN-NORM", "EXACT-ZERO", "BIG-FRESH: the receiver of every result-writing math/big call in the number builtins is a number allocated in that call, never an argument"},
+		Run:         func(p *core.Program, r *core.Report) { runC11(p, r); runBigFresh(p, r) },
+		MinCounts:   map[string]int{"NORM": 3, "GOFN-NORM": 1, "EXACT-ZERO": 3, "BIG-FRESH": 10},
 		Trusted:     trustedBase,
 		Controls: []core.Control{
 			{Name: "range-outputs-unnormalised-bigint", Rule: "NORM", File: "pkg/eval/builtin_fn_num.go", Old: "\t\t\terr := out.Put(vals.FromGo(cur))\n\t\t\tif err != nil {\n\t\t\t\treturn err\n\t\t\t}\n\t\t\tnext = d.newZero()", New: "\t\t\terr := out.Put(cur)\n\t\t\tif err != nil {\n\t\t\t\treturn err\n\t\t\t}\n\t\t\tnext = d.newZero()", Fire: true, Quick: true},
